@@ -263,6 +263,31 @@ Section Sem.
     | Some c => (EWrap w 0 :: t, s, Some c)
     | None => (EWrap w 0 :: t ++ [EWrap w 1], s, fail)
     end.
+
+  (** [keep_wrapper w n copy]: a wrapper that KEEPS its continuation together
+      with a snapshot (copy) of the context, passes the query on in place, and
+      runs the kept continuation [n] more times LATER — after the whole
+      execution has returned and other sequences have been executed in
+      between — each time on a fresh copy of the snapshot ([copy]) or on the
+      snapshot itself, one run after the other. A late run reports the context
+      it left ([2 + code]) and its error ([3000 + c], 3000 = nil); it aborts
+      nothing. Since the continuation is a value, what the late runs do is
+      known when it is kept; the log shows them right after the report 0. *)
+  Definition errc (r : option N) : N := match r with None => 0 | Some c => c end.
+
+  Fixpoint late_runs (copy : bool) (w : N) (n : nat) (k : State -> outcome) (st : State) : trace :=
+    match n with
+    | O => []
+    | S n' =>
+      let '(t, s, r) := k st in
+      t ++ [EWrap w (2 + code s); EWrap w (3000 + errc r)]
+        ++ late_runs copy w n' k (if copy then st else s)
+    end.
+
+  Definition keep_wrapper (w : N) (n : nat) (copy : bool)
+             (k : State -> outcome) (st : State) : outcome :=
+    let '(t, s, r) := k st in
+    (EWrap w 0 :: late_runs copy w n k st ++ t ++ match r with None => [EWrap w 1] | Some _ => [] end, s, r).
 End Sem.
 
 Arguments pre {State R} t o.
@@ -285,6 +310,9 @@ Arguments spec_seq {State} E prog st.
 Arguments rep_same {State} code w n k st.
 Arguments rep_copy {State} code w n k st.
 Arguments rep_wrapper {State} code w calls copy fail k st.
+Arguments errc r : simpl never.
+Arguments late_runs {State} code copy w n k st.
+Arguments keep_wrapper {State} code w n copy k st.
 
 (** ** The plugins of the driver (harness/cmd/c06)
 
@@ -297,7 +325,10 @@ Arguments rep_wrapper {State} code w calls copy fail k st.
     - wrapper w: w mod 3 runs of the continuation; (w/3) mod 3 = 0 on the
       context itself, 1 on copies one after the other, 2 on copies
       concurrently (the same function of the context: every copy starts from
-      the same context); (w/9) mod 2 = 1 returns error 700+w at the end.
+      the same context); (w/9) mod 2 = 1 returns error 700+w at the end;
+      w = 18..21 keep their continuation and run it later ([keep_wrapper]):
+      18 once and 19 twice on copies of the snapshot, 20 once and 21 twice on
+      the snapshot itself.
     Error codes are opaque here: the sequence must hand whatever error value a
     plugin returns to its caller. In the driver the VALUE behind a code is
     drawn per run from a menu (own marker type, errors.New, context.Canceled,
@@ -328,6 +359,7 @@ Definition h_exec (e : N) (st : hstate) : hstate * option N :=
 Definition h_reject (rc : N) (st : hstate) : hstate := Some rc.
 
 Definition h_wrap (w : N) : (hstate -> outcome hstate) -> hstate -> outcome hstate :=
+  if 18 <=? w then keep_wrapper hcode w (N.to_nat (1 + w mod 2)) (w <? 20) else
   rep_wrapper hcode w (N.to_nat (w mod 3)) (negb ((w / 3) mod 3 =? 0))
               (if (w / 9) mod 2 =? 1 then Some (700 + w) else None).
 
@@ -405,7 +437,7 @@ Fixpoint build_from (K : known) (i : N) (reg : registry) (ss : list tseq) : regi
 Definition build_all (K : known) (ss : list tseq) : registry + N := build_from K 0 [] ss.
 
 Definition harness_known : known :=
-  Known (fun m => (m <? 16) || (m =? 100) || (m =? 101)) (fun e => e <? 16) (fun w => w <? 18).
+  Known (fun m => (m <? 16) || (m =? 100) || (m =? 101)) (fun e => e <? 16) (fun w => w <? 22).
 
 (** ** Rule text: config.go parseMatch / parseExec on ASCII strings *)
 Definition str := list N.
